@@ -108,16 +108,18 @@ func productiveRules(env []*Sexp) []bool {
 			}
 			return false
 		case "seq":
+			// "definitely productive": every element derives something, so the full chain exists for some input.
+			// (SeqTry / SeqFirstOrAll emit a shorter chain only where it cannot be extended — longest path — so
+			// "the first element is productive" does not make them productive: P -> SeqFirstOrAll(eps, eps, P)
+			// derives nothing.  An earlier version used that weaker test and so did not recognise known finding D8
+			// in such grammars: a false alarm of the check in the thorough tier, corrected.)
 			els := a[2:]
-			if a[0].Atom == "of" {
-				for _, x := range els {
-					if !prod(x) {
-						return false
-					}
+			for _, x := range els {
+				if !prod(x) {
+					return false
 				}
-				return true
 			}
-			return len(els) > 0 && prod(els[0])
+			return len(els) > 0 || a[0].Atom == "of"
 		case "sentence":
 			return prod(a[0])
 		case "many":
@@ -425,6 +427,87 @@ func oracleC02(c *Sexp, obs parseObs) string {
 	return ""
 }
 
+// ---- exhaustive small scope (thorough tier of C01) ---------------------------------------------------------
+
+// c01AltShapes: every alternative shape of the template family instantiated over the alphabet {a, b}
+func c01AltShapes() []*Sexp {
+	seq := func(xs ...*Sexp) *Sexp { return LA("seq", append([]*Sexp{A("of"), noOpts}, xs...)...) }
+	p := func() *Sexp { return LA("ref", N(0)) }
+	var out []*Sexp
+	for _, c := range []byte("ab") {
+		out = append(out, runeT(c), seq(p(), runeT(c)), seq(runeT(c), p()), seq(LA("opt", p()), runeT(c)))
+		for _, d := range []byte("ab") {
+			out = append(out, seq(LA("opt", runeT(c)), p(), runeT(d)))
+		}
+	}
+	return append(out, seq(p(), p()), p(), LA("empty"))
+}
+
+var c01Inputs = func() [][]byte {
+	out := [][]byte{{}}
+	for n, start := 1, 0; n <= 4; n++ {
+		end := len(out)
+		for _, w := range out[start:end] {
+			for _, c := range []byte("ab") {
+				out = append(out, append(append([]byte{}, w...), c))
+			}
+		}
+		start = end
+	}
+	return out
+}()
+
+func c01ExhaustiveN() int {
+	k := len(c01AltShapes())
+	return (k + k*k + k*k*k) * len(c01Inputs)
+}
+
+// c01Exhaustive decodes the j-th (grammar, input) pair of the family
+func c01Exhaustive(j int) *Sexp {
+	shapes := c01AltShapes()
+	k := len(shapes)
+	in := c01Inputs[j%len(c01Inputs)]
+	gi := j / len(c01Inputs)
+	var alts []*Sexp
+	switch {
+	case gi < k:
+		alts = []*Sexp{shapes[gi].Clone()}
+	case gi < k+k*k:
+		gi -= k
+		alts = []*Sexp{shapes[gi/k].Clone(), shapes[gi%k].Clone()}
+	default:
+		gi -= k + k*k
+		alts = []*Sexp{shapes[gi/(k*k)].Clone(), shapes[(gi/k)%k].Clone(), shapes[gi%k].Clone()}
+	}
+	g := genGrammar{[]*Sexp{LA("memo", N(0), LA("any", alts...))}, LA("ref", N(0))}
+	return parseCaseSexp(g, in)
+}
+
+// withExhaustive appends the exhaustive one-rule family (optionally under a Sentence root) to a stream's thorough tier
+func withExhaustive(count func(string) int, gen func(*rand.Rand, string, int) *Sexp, sentence bool) (func(string) int, func(*rand.Rand, string, int) *Sexp) {
+	c := func(tier string) int {
+		if tier == "thorough" {
+			return count(tier) + c01ExhaustiveN()
+		}
+		return count(tier)
+	}
+	g := func(rng *rand.Rand, tier string, i int) *Sexp {
+		if tier == "thorough" && i >= count(tier) {
+			x := c01Exhaustive(i - count(tier))
+			if sentence {
+				for _, y := range x.List {
+					if y.Head() == "root" {
+						y.List[1] = LA("sentence", y.List[1])
+					}
+				}
+			}
+			return x
+		}
+		return gen(rng, tier, i)
+	}
+	return c, g
+}
+
 func init() {
 	core := genOpts{subMemo: 0.1, sentence: 0.6, maxRules: 3, noSuppress: true, noNameSingle: true}
 	nontrivialLR := func(c *Sexp, obs parseObs) bool {
@@ -433,13 +516,24 @@ func init() {
 	register(&Prop{
 		ID: "C01", Cmd: "parse",
 		Rule:   "random certified grammars (1-3 nonterminals, memoized with probability 0.85, bodies over the property's combinator set biased to direct/indirect/hidden left recursion, nullable and cyclic rules) x inputs sampled from the grammar, mutated, or uniform; every second case comes from a template family of 2-3 memoized rules whose alternatives are t | N t | t N | t? N t | N? t | N N | N | eps with uniform inputs up to 5 bytes; both root.Parse and parsley.Parse observables are compared with the Lean model. Non-trivial = a memoized parser was re-entered at the same position and at least one call was answered by curtailment or the cache; distinct = distinct case text.",
-		Count: quickN(8000, 80000),
+		Count: func(tier string) int {
+			if tier == "thorough" {
+				return 80000 + c01ExhaustiveN()
+			}
+			return 8000
+		},
 		Gen: func(rng *rand.Rand, tier string, i int) *Sexp {
+			if tier == "thorough" && i >= 80000 {
+				return c01Exhaustive(i - 80000)
+			}
 			if i%2 == 1 {
 				g, in := genTemplate(rng)
 				return parseCaseSexp(g, in)
 			}
 			return genParseCase(core, 10)(rng, tier, i)
+		},
+		Extra: func() map[string]interface{} {
+			return map[string]interface{}{"exhaustive_family": "thorough tier only: ALL one-rule memoized grammars P -> alt1 | alt2 [| alt3] with alternatives from {t, P t, t P, t? P t, P? t, P P, P, eps} over {a,b} (ordered, 1-3 alternatives) x ALL inputs over {a,b} up to length 4", "exhaustive_family_cases": c01ExhaustiveN()}
 		},
 		Exec:   parseExec(oracleC01, nontrivialLR),
 		Shrink: shrinkParse,
@@ -617,5 +711,10 @@ func init() {
 			},
 		},
 	})
+	for id, sentence := range map[string]bool{"C02": false, "C04": true, "C06": true} {
+		pr := props[id]
+		pr.Count, pr.Gen = withExhaustive(pr.Count, pr.Gen, sentence)
+		pr.Rule += " The thorough tier appends an EXHAUSTIVE family: all one-rule memoized grammars P -> alt1 | alt2 [| alt3] with alternatives from {t, P t, t P, t? P t, P? t, P P, P, eps} over {a,b} x all inputs over {a,b} up to length 4."
+	}
 	_ = parsley.NilPos
 }
